@@ -2,10 +2,13 @@ pub mod bind;
 pub mod c01;
 pub mod c02;
 pub mod c05;
+pub mod c08;
 pub mod c09;
 pub mod c10;
+pub mod c11;
 pub mod c15;
 pub mod c16;
+pub mod c17;
 pub mod corpus;
 pub mod stream_graph;
 pub mod window;
@@ -18,10 +21,13 @@ pub fn run(id: &str, tier: Tier) -> Option<i32> {
         "C01" => c01::run(tier),
         "C02" => c02::run(tier),
         "C05" => c05::run(tier),
+        "C08" => c08::run(tier),
         "C09" => c09::run(tier),
         "C10" => c10::run(tier),
+        "C11" => c11::run(tier),
         "C15" => c15::run(tier),
         "C16" => c16::run(tier),
+        "C17" => c17::run(tier),
         _ => return None,
     })
 }
